@@ -41,6 +41,18 @@ Theorem C19_grid_resolution_is_nearest_root : forall n d, (0 <= n)%Z -> (1 <= d)
 Proof. exact iroot_round_spec. Qed.
 Print Assumptions C19_grid_resolution_is_nearest_root.
 
+(* the binary64 evaluation round(np.power(n, 1/d)) is compared with iroot_round on every run for all n <= LIMIT
+   (META) by a kernel-checked run-length table; this is what an accepted table means *)
+Theorem C19_grid_resolution_table_sound : forall d limit, (1 <= d)%Z -> forall l lo, (0 <= lo)%Z ->
+  table_ok d lo limit l = true ->
+  forall n, (lo <= n <= limit)%Z -> table_lookup lo l n = Some (iroot_round n d).
+Proof. exact table_ok_sound. Qed.
+Print Assumptions C19_grid_resolution_table_sound.
+
+Theorem C19_grid_resolution_dim1 : forall n, (0 <= n)%Z -> iroot_round n 1 = n.
+Proof. exact iroot_round_dim1. Qed.
+Print Assumptions C19_grid_resolution_dim1.
+
 Theorem C19_counts_polyline : forall {T} (o : ops T) V E n chosen ts pts,
   (0 <= n)%Z -> length chosen = Z.to_nat n -> length ts = Z.to_nat n ->
   sample_polyline o V E n chosen ts = Ok pts -> length pts = Z.to_nat n.
